@@ -19,6 +19,7 @@ FAMILIES = (
     "rowscaled",
     "rowscaled_mild",
     "lowrank",
+    "orthoblock",
 )
 
 
@@ -80,6 +81,23 @@ def build(family: str, m: int, n: int, rng, extra: dict) -> np.ndarray:
         return np.abs(g)
     if family == "rowscaled":
         return g * 10.0 ** rng.uniform(-extra.get("decades", 6), extra.get("decades", 6), size=(m, 1))
+    if family == "orthoblock":
+        # 1-2 "free" rows orthogonal to each other - exactly (coordinate axes: Gramian entries exactly 0) or only up to
+        # rounding (QR: entries of either sign at noise level) - that conflict with nobody, next to >= 3 mutually
+        # conflicting rows for which the order of pairwise operations matters: data-dependent branches on the SIGN of
+        # a Gramian entry flip on such matrices under any transformation that perturbs the noise.
+        if m < 4 or n < m:
+            return g
+        k = int(rng.integers(1, 3))
+        r = m - k
+        Q = np.eye(n)[:, rng.permutation(n)[:m]] if extra.get("exact", rng.integers(0, 2)) else orthonormal(rng, n, m)
+        free, rest = Q[:, :k], Q[:, k:]
+        simplex = np.eye(r) - 1.0 / r  # rows e_i - mean: pairwise inner products -1/r
+        rows = list(free.T * rng.uniform(0.5, 2.0, size=(k, 1)))
+        shared = free.sum(1) * [0.0, 0.3][int(rng.integers(0, 2))]
+        rows += [shared + rest @ (simplex[i] * rng.uniform(0.8, 1.25)) for i in range(r)]
+        J = np.array(rows)
+        return J if rng.integers(0, 2) else J[rng.permutation(m)]
     if family == "rowscaled_mild":
         # row lengths within a factor ~25 of each other (a short row that matters next to long ones)
         return g * 10.0 ** rng.uniform(-0.7, 0.7, size=(m, 1))
@@ -164,7 +182,10 @@ def pref_vectors(m: int, allow_zero=True, decades=2):
 def extra_cols_strategy():
     """None, or a description of many extra columns (expanded from a seed at run time, so the JSON case stays small):
     real models have thousands of parameters, most checks otherwise use n <= 10."""
-    return st.sampled_from([None] * 9 + [{"k": 90, "kind": "gauss"}, {"k": 1500, "kind": "gauss"}, {"k": 3000, "kind": "zero"}])
+    return st.sampled_from([None] * 12 + [{"k": 90, "kind": "gauss"}, {"k": 1500, "kind": "gauss"}, {"k": 3000, "kind": "zero"},
+                            # beyond the usual size thresholds of "fast paths" (2^12, 2^16 columns)
+                            {"k": 5000, "kind": "gauss"}, {"k": 9000, "kind": "zero"}, {"k": 70_000, "kind": "zero"},
+                            {"k": 140_000, "kind": "gauss"}])
 
 
 def widen(J64: np.ndarray, extra, seed: int) -> np.ndarray:
@@ -177,6 +198,40 @@ def widen(J64: np.ndarray, extra, seed: int) -> np.ndarray:
         scale = float(np.abs(J64).max(initial=0.0)) or 1.0
         E = np.random.default_rng(seed).standard_normal((m, extra["k"])) * scale / np.sqrt(extra["k"])
     return np.concatenate([J64, E], axis=1)
+
+
+LIGHT_EXTRA = [None] * 40 + [{"k": 5000, "kind": "zero"}, {"k": 70_000, "kind": "zero"}, {"k": 5000, "kind": "gauss"}]
+
+
+def widened(strategy, light: bool = False, skip=None):
+    """Wraps a case strategy: cases carrying a matrix "J" also get "extra_cols"/"xseed" (see extra_cols_strategy);
+    `case_tensor` then appends the columns. Fast paths keyed on the number of columns live in helpers shared by many
+    aggregators, so every matrix-based check should see some wide matrices. light=True: one case in 14 (for checks
+    that evaluate each case hundreds of times). An all-zero matrix only gets zero columns (it must stay all-zero)."""
+
+    @st.composite
+    def _s(draw):
+        case = draw(strategy)
+        if (isinstance(case, dict) and "J" in case and "extra_cols" not in case and len(case["J"]) and len(case["J"][0])
+                and not (skip and skip(case))):
+            extra = draw(st.sampled_from(LIGHT_EXTRA)) if light else draw(extra_cols_strategy())
+            if len(case["J"]) > 64:
+                extra = None  # hundreds of rows AND 10^5 columns: the quadratic-in-m references would take minutes
+            if extra and extra["kind"] == "gauss" and not np.any(np.array(case["J"])):
+                extra = dict(extra, kind="zero")
+            case = dict(case, extra_cols=extra, xseed=draw(st.integers(0, 2**31 - 1)))
+        return case
+
+    return _s()
+
+
+def case_tensor(case, dtype):
+    import torch
+
+    J = np.array(case["J"], dtype=np.float64)
+    if J.ndim == 2 and case.get("extra_cols"):
+        J = widen(J, case["extra_cols"], case.get("xseed", 0))
+    return torch.tensor(J, dtype=dtype).reshape(len(case["J"]), -1)
 
 
 def to_tensor(case_or_J, dtype=None):
